@@ -813,6 +813,214 @@ template <class BF, class LY, unsigned... S> void check_bits_binding(const char*
     vh::evals(g_evals - e0); vh::distinct(1);
 }
 
+// ---- every way of reaching a planar pixel: iterators, pointers built from &reference / &pixel, const conversions ----
+// A planar pixel is reached through x/y/1-D iterators, locators, view(x,y), pointers constructed or assigned from the
+// address of a reference (planar_pixel_iterator(P*), operator=(P*)) -- P being a planar reference or an interleaved pixel
+// of ANY layout --, operator->, mutable->const conversions, and reference -> value -> reference round trips.  Whatever the
+// route, colour k read through it is the value stored under that name and a write lands in the storage of that name.
+#if C05_PART == 10
+template <class T, class CSI, class... LY> struct planar_access {
+    enum { N = CSI::N, W = 3, H = 2 };
+    typedef typename CSI::cs cs;
+    typedef typename RT<T>::raw raw;
+    typedef gil::planar_pixel_iterator<T*, cs> xit;
+    typedef gil::planar_pixel_iterator<T const*, cs> cxit;
+    typedef typename gil::type_from_x_iterator<xit>::view_t view_t;
+    typedef typename view_t::const_t cview_t;
+    static const size_t ROWB = (W + 2) * sizeof(T);
+    alignas(8) unsigned char mem[5][H * ROWB + 16], shadow[5][H * ROWB + 16];
+    std::string g;
+    explicit planar_access(const std::string& group) : g(group) { reset(); }
+    static int slot(int k) { return (k * 2 + 3) % 5; }            // planes are not in colour order in memory
+    unsigned char* addr(int k, int x, int y) { return mem[slot(k)] + 8 + y * ROWB + x * sizeof(T); }
+    static double val(int k, int x, int y) { double v = 1 + k * 40 + y * 10 + x * 3; return RT<T>::is_float ? v / 256.0 : v; }
+    void put(int k, int x, int y, double v) { raw r = (raw)v; memcpy(addr(k, x, y), &r, sizeof r); }
+    double got(int k, int x, int y) { raw r; memcpy(&r, addr(k, x, y), sizeof r); return (double)r; }
+    void reset() {
+        for (int s = 0; s < 5; ++s) for (size_t i = 0; i < sizeof mem[0]; ++i) mem[s][i] = (unsigned char)(0xA0 + s);
+        for (int k = 0; k < N; ++k) for (int y = 0; y < H; ++y) for (int x = 0; x < W; ++x) { new (addr(k, x, y)) T(); put(k, x, y, val(k, x, y)); }
+        memcpy(shadow, mem, sizeof mem);
+    }
+    view_t view() {
+        T* p[5];
+        for (int k = 0; k < N; ++k) p[k] = reinterpret_cast<T*>(addr(k, 0, 0));
+        return view_t(W, H, typename view_t::locator(make_planar_it<xit>(p, std::integral_constant<int, N>()), ROWB));
+    }
+    // r designates pixel (x,y): reads by name, and the channel it refers to is the storage of that name
+    template <class R> void rd(const char* how, R const& r, int x, int y) {
+        auto f = [&](auto kc) {
+            constexpr int K = decltype(kc)::value;
+            typedef typename tl_at<typename CSI::tags, K>::type tag;
+            g_evals += 3;
+            double v = to_raw(gil::semantic_at_c<K>(r));
+            if (v != val(K, x, y)) vh::viol(vh::cat("planar-access.read.", how, ".", g), vh::cat("colour ", CSI::cname(K), " of pixel (", x, ",", y, ") read through ", how, " is ", v, ", stored ", val(K, x, y)));
+            if ((const void*)&gil::semantic_at_c<K>(r) != (const void*)addr(K, x, y)) vh::viol(vh::cat("planar-access.address.", how, ".", g), vh::cat("colour ", CSI::cname(K), " of pixel (", x, ",", y, ") reached through ", how, " is not the ", CSI::cname(K), " plane"));
+            if (to_raw(gil::get_color(r, tag())) != val(K, x, y)) vh::viol(vh::cat("planar-access.get_color.", how, ".", g), vh::cat("colour ", CSI::cname(K), " of pixel (", x, ",", y, ")"));
+        };
+        KLoop<0, N>::run(f);
+    }
+    // a value (not a reference) taken from pixel (x,y)
+    template <class V> void rdval(const char* how, V const& v, int x, int y) {
+        auto f = [&](auto kc) {
+            constexpr int K = decltype(kc)::value;
+            ++g_evals;
+            double q = to_raw(gil::semantic_at_c<K>(v));
+            if (q != val(K, x, y)) vh::viol(vh::cat("planar-access.value.", how, ".", g), vh::cat("colour ", CSI::cname(K), " of the value taken from pixel (", x, ",", y, ") is ", q, ", stored ", val(K, x, y)));
+        };
+        KLoop<0, N>::run(f);
+    }
+    // assigning a pixel of layout L through r writes each named colour into the plane of that name, and nothing else
+    template <class L, class R> void wr1(const char* how, R const& r, int x, int y) {
+        H_pix<T, L> src, back;
+        double nv[N];
+        for (int k = 0; k < N; ++k) nv[k] = RT<T>::is_float ? val(k, x, y) / 2 : val(k, x, y) + 1;
+        fill(src, nv);
+        r = src.cref();
+        g_evals += 3;
+        for (int k = 0; k < N; ++k)
+            if (got(k, x, y) != nv[k]) { vh::viol(vh::cat("planar-access.write.", how, ".", g), vh::cat("after ref = ", H_pix<T, L>::name(), " through ", how, ", plane ", CSI::cname(k), " of pixel (", x, ",", y, ") holds ", got(k, x, y), " expected ", nv[k])); break; }
+        for (int k = 0; k < N; ++k) put(k, x, y, val(k, x, y));
+        if (memcmp(mem, shadow, sizeof mem) != 0) { vh::viol(vh::cat("planar-access.write-elsewhere.", how, ".", g), vh::cat("ref = pixel through ", how, " at (", x, ",", y, ") changed other bytes")); reset(); }
+        // and back into an interleaved pixel of that layout: value <- reference
+        fill_junk(back, nv);
+        back.ref() = r;
+        int bad = 0;
+        double ov[N]; for (int k = 0; k < N; ++k) ov[k] = val(k, x, y);
+        if (!holds(back, ov, &bad)) vh::viol(vh::cat("planar-access.to-pixel.", how, ".", g), vh::cat(H_pix<T, L>::name(), " = reference through ", how, ": colour ", CSI::cname(bad), " is ", back.get(bad), " expected ", ov[bad]));
+        typename H_pix<T, L>::gil_t built(r);
+        rdval(how, built, x, y);
+    }
+    template <class R> void wr(const char* how, R const& r, int x, int y) { using sw = int[]; (void)sw{0, (wr1<LY>(how, r, x, y), 0)...}; }
+
+    void views() {
+        if (!vh::begin_case(vh::cat("planar-access.", g), "view")) return;
+        uint64_t e0 = g_evals;
+        view_t v = view();
+        cview_t cv(v);
+        for (int y = 0; y < H; ++y) for (int x = 0; x < W; ++x) {
+            int i = y * W + x;
+            rd("view(x,y)", v(x, y), x, y);
+            rd("row_begin[x]", v.row_begin(y)[x], x, y);
+            rd("*(row_begin+x)", *(v.row_begin(y) + x), x, y);
+            rd("*(row_end-k)", *(v.row_end(y) - (W - x)), x, y);
+            rd("*at(x,y)", *v.at(x, y), x, y);
+            rd("*xy_at(x,y)", *v.xy_at(x, y), x, y);
+            rd("xy_at(0,0)(x,y)", v.xy_at(0, 0)(x, y), x, y);
+            rd("col_begin[y]", v.col_begin(x)[y], x, y);
+            rd("begin()[i]", v.begin()[i], x, y);
+            rd("*(begin()+i)", *(v.begin() + i), x, y);
+            rd("view[i]", v[i], x, y);
+            xit it = v.row_begin(y) + x;
+            rd("x_iterator->", it.operator->(), x, y);
+            // pointers made from the address of a reference
+            typename view_t::reference ref = v(x, y);
+            xit p(&ref);
+            rd("ptr(&ref)", *p, x, y);
+            xit q; q = &ref;
+            rd("ptr=&ref", *q, x, y);
+            cxit cp(&ref);
+            rd("constptr(&ref)", *cp, x, y);
+            g_evals += 2;
+            if (!(p == it) || !(q == it)) vh::viol(vh::cat("planar-access.ptr-equal.", g), vh::cat("the pointer made from &view(", x, ",", y, ") differs from the iterator to that pixel"));
+            // relative moves of such a pointer
+            if (x + 1 < W) rd("ptr(&ref)+1", *(p + 1), x + 1, y);
+            if (x > 0) rd("ptr(&ref)[-1]", p[-1], x - 1, y);
+            // const conversions
+            cxit cit(it);
+            rd("const x_iterator(mutable)", *cit, x, y);
+            typename cview_t::x_iterator cit2 = cv.row_begin(y) + x;
+            if (!(cit == cit2)) vh::viol(vh::cat("planar-access.const-iterator-equal.", g), "const iterator converted from the mutable one differs from the const view's");
+            rd("const_view(x,y)", cv(x, y), x, y);
+            typename cview_t::reference cref = cv(x, y);
+            cxit cp2(&cref);
+            rd("constptr(&constref)", *cp2, x, y);
+            // reference -> value
+            typename view_t::value_type pv = v(x, y);
+            rdval("value_type(ref)", pv, x, y);
+            typename view_t::value_type pv2; pv2 = cv(x, y);
+            rdval("value_type=constref", pv2, x, y);
+            // writes through the routes
+            wr("view(x,y)", v(x, y), x, y);
+            wr("row_begin[x]", v.row_begin(y)[x], x, y);
+            wr("view[i]", v[i], x, y);
+            wr("x_iterator->", it.operator->(), x, y);
+            wr("ptr(&ref)", *p, x, y);
+            wr("ptr=&ref", *q, x, y);
+            // value -> reference at another pixel
+            int x2 = (x + 1) % W, y2 = (y + 1) % H;
+            v(x2, y2) = pv;
+            ++g_evals;
+            for (int k = 0; k < N; ++k)
+                if (got(k, x2, y2) != val(k, x, y)) { vh::viol(vh::cat("planar-access.write.value-to-ref.", g), vh::cat("plane ", CSI::cname(k), " holds ", got(k, x2, y2), " expected ", val(k, x, y))); break; }
+            reset();
+        }
+        vh::evals(g_evals - e0); vh::distinct(W * H * 30);
+        vh::obs("planar-access.view");
+    }
+
+    // planar pointer to an INTERLEAVED pixel of layout L: each plane pointer designates the colour of that name
+    template <class L> void from_pixel() {
+        if (!vh::begin_case(vh::cat("planar-access.", g), vh::cat("ptr-from.", H_pix<T, L>::name()))) return;
+        uint64_t e0 = g_evals;
+        vh::rng r = vh::case_rng();
+        for (int round = 0; round < 8; ++round) {
+            H_pix<T, L> h;
+            double a[N];
+            for (int k = 0; k < N; ++k) a[k] = RT<T>::is_float ? (double)(float)r.unit() : (double)r.below((uint64_t)RT<T>::maxv() + 1);
+            if (round < N) for (int k = 0; k < N; ++k) a[k] = k == round ? RT<T>::maxv() : 0;
+            fill(h, a);
+            xit p(&h.ref());
+            xit q; q = &h.ref();
+            cxit cp(&h.cref());
+            cxit cq; cq = &h.cref();
+            cxit cc(p);
+            auto f = [&](auto kc) {
+                constexpr int K = decltype(kc)::value;
+                g_evals += 5;
+                const char* hn = "";
+                if ((void*)gil::semantic_at_c<K>(p) != h.chan_addr(K)) hn = "ptr(&pixel)";
+                else if ((void*)gil::semantic_at_c<K>(q) != h.chan_addr(K)) hn = "ptr=&pixel";
+                else if ((const void*)gil::semantic_at_c<K>(cp) != h.chan_addr(K)) hn = "constptr(&pixel)";
+                else if ((const void*)gil::semantic_at_c<K>(cq) != h.chan_addr(K)) hn = "constptr=&pixel";
+                else if ((const void*)gil::semantic_at_c<K>(cc) != h.chan_addr(K)) hn = "constptr(ptr)";
+                if (*hn) vh::viol(vh::cat("planar-access.ptr-from-pixel.address.", hn, ".", H_pix<T, L>::name()), vh::cat("plane pointer ", CSI::cname(K), " does not point at colour ", CSI::cname(K), " of the pixel"));
+                double v1 = to_raw(gil::semantic_at_c<K>(*p)), v2 = to_raw(gil::semantic_at_c<K>(*cq)), v3 = to_raw(gil::semantic_at_c<K>(p.operator->()));
+                if (v1 != a[K] || v2 != a[K] || v3 != a[K]) vh::viol(vh::cat("planar-access.ptr-from-pixel.read.", H_pix<T, L>::name()), vh::cat("colour ", CSI::cname(K), " read through the pointer is ", v1, "/", v2, "/", v3, ", the pixel holds ", a[K]));
+            };
+            KLoop<0, N>::run(f);
+            // write through the pointer: from a planar reference and from pixels of every layout
+            double nv[N];
+            for (int k = 0; k < N; ++k) nv[k] = other_value<H_pix<T, L>>(k, a[k]);
+            H_planar<T, CSI, false> ps; fill(ps, nv);
+            *p = ps.cref();
+            int bad = 0; ++g_evals;
+            if (!holds(h, nv, &bad)) vh::viol(vh::cat("planar-access.ptr-from-pixel.write.", H_pix<T, L>::name()), vh::cat("*ptr = planar reference: colour ", CSI::cname(bad), " of the pixel is ", h.get(bad), " expected ", nv[bad]));
+            wr_from<LY...>(q, h, a);
+            if (!h.guards_ok()) vh::viol(vh::cat("planar-access.ptr-from-pixel.write-outside.", H_pix<T, L>::name()), "bytes around the pixel changed");
+        }
+        vh::evals(g_evals - e0); vh::distinct(8);
+        vh::obs("planar-access.ptr-from-pixel");
+    }
+    template <class L2, class HP> void wr_from1(xit const& q, HP& h, const double* a) {
+        H_pix<T, L2> src; fill(src, a);
+        fill_junk(h, a);
+        *q = src.cref();
+        int bad = 0; ++g_evals;
+        if (!holds(h, a, &bad)) vh::viol(vh::cat("planar-access.ptr-from-pixel.write.", HP::name()), vh::cat("*ptr = ", H_pix<T, L2>::name(), ": colour ", CSI::cname(bad), " of the pixel is ", h.get(bad), " expected ", a[bad]));
+    }
+    template <class... L2, class HP> void wr_from(xit const& q, HP& h, const double* a) { using sw = int[]; (void)sw{0, (wr_from1<L2>(q, h, a), 0)...}; }
+
+    void run() {
+        views();
+        using sw = int[]; (void)sw{0, (from_pixel<LY>(), 0)...};
+    }
+};
+template <class T, class CSI, class... LY> void planar_access_all() {
+    planar_access<T, CSI, LY...> pa(vh::cat(CSI::name(), ".", RT<T>::name()));
+    pa.run();
+}
+#endif
+
 // ---- enumeration -------------------------------------------------------------------------------------------
 template <class S, class... D> void pairs_row(const char* g, TL<D...>) { using sw = int[]; (void)sw{0, (check_pair<S, D>(g), 0)...}; }
 template <class... S, class DL> void all_pairs(const char* g, TL<S...>, DL d) { using sw = int[]; (void)sw{0, (pairs_row<S>(g, d), 0)...}; }
@@ -929,6 +1137,14 @@ int main(int argc, char** argv) {
 #elif C05_PART == 9
     packed_family<uint16_t, 5, 5, 5, 1>::run_dst<L_argb>("rgba", rgba_layouts());
     packed_family<uint16_t, 5, 5, 5, 1>::run_dst<L_abgr>("rgba", rgba_layouts());
+#elif C05_PART == 10
+    planar_access_all<uint8_t, CS_rgb, L_rgb, L_bgr>();
+    planar_access_all<uint8_t, CS_rgba, L_rgba, L_bgra, L_argb, L_abgr>();
+    planar_access_all<uint16_t, CS_rgba, L_rgba, L_bgra, L_argb, L_abgr>();
+    planar_access_all<gil::float32_t, CS_rgb, L_rgb, L_bgr>();
+    planar_access_all<uint8_t, CS_cmyk, L_cmyk, L_kymc>();
+    planar_access_all<uint8_t, CS_dev<2>, L_dev2x>();
+    planar_access_all<uint8_t, CS_dev<5>, L_dev5r>();
 #endif
     return vh::finish();
 }
